@@ -263,7 +263,85 @@ def r13g(ctx):
     ctx.check(ok, "R13g", c, "the k-th call returns events[(k-1) mod len]: in order, cycling", u(r.value) if isinstance(r, ast.Return) else "", key_detail="replay index")
 
 
+def r13h(ctx):
+    """exit-point algebra: the candidate points computed by get_exit_points lie on the volume boundary and on the particle's line of flight,
+    as identities in exact arithmetic (square roots expanded)."""
+    from ..core.exprnf import expand_roots
+    repo = ctx.repo
+    ctx.rule("R13h", "exit-point algebra: cylinder wall points satisfy x^2 + y^2 = dr^2 and lie on the line through the vertex along the direction (both arms); cap "
+             "points and box-face points are vertex + t*direction with the face coordinate exact", expected=8, kind="S")
+    fn = repo.member(CYL, "get_exit_points")
+    c = f"{CYL}.get_exit_points"
+    top = [n for n in strip_doc(fn) if isinstance(n, ast.If) and "direction[0]" in u(n.test)]
+    if len(top) != 1:
+        ctx.unknown("R13h", c, "decision on a vanishing x-component of the direction", "")
+        return
+    t = top[0]
+    vert_arm, gen_arm = (t.body, t.orelse) if u(t.test).replace(" ", "").endswith("==0") else (t.orelse, t.body)
+    V = {"vx": "particle.vertex[0]", "vy": "particle.vertex[1]", "vz": "particle.vertex[2]", "dx": "particle.direction[0]", "dy": "particle.direction[1]", "dz": "particle.direction[2]"}
+
+    def env_of(stmts):
+        e = {}
+        for st in stmts:
+            if isinstance(st, ast.Assign) and isinstance(st.targets[0], ast.Name):
+                e[st.targets[0].id] = st.value
+        return e
+    P = lambda src: NF().nf(parse_expr(src))
+    for arm_name, stmts in (("general", gen_arm), ("direction[0] == 0", vert_arm)):
+        e = env_of(stmts)
+        nf = NF({k: v for k, v in e.items() if k not in ("x0", "y0", "z0", "x1", "y1", "z1")})
+        for k in ("0", "1"):
+            if not all(n + k in e for n in "xyz"):
+                ctx.unknown("R13h", c, f"[{arm_name}] point {k} has x, y, z", str(sorted(e)))
+                continue
+            full = NF({kk: vv for kk, vv in e.items() if kk not in (f"z{k}",)})     # z may refer to x/y of the same point
+            X, Y = full.nf(e["x" + k]), full.nf(e["y" + k])
+            on_circle = expand_roots(X * X + Y * Y - P("self.dr**2")).num.is_zero()
+            ctx.check(on_circle, "R13h", c, f"[{arm_name}] wall point {k} lies on the cylinder x^2 + y^2 = dr^2", f"x{k} = {u(e['x' + k])[:70]}", key_detail=f"{arm_name} point {k} on circle",
+                      loc=ctx.loc("pyrex.generation", e["x" + k]))
+            # on the line: (X - vx)*dy == (Y - vy)*dx   and   (Z - vz)*d_h == (H - v_h)*dz  with h the horizontal coordinate used for z
+            Z = NF({**{kk: vv for kk, vv in e.items()}}).nf(e["z" + k])
+            lin_xy = expand_roots((X - P(V["vx"])) * P(V["dy"]) - (Y - P(V["vy"])) * P(V["dx"])).num.is_zero()
+            lin_z = expand_roots((Z - P(V["vz"])) * P(V["dx"]) - (X - P(V["vx"])) * P(V["dz"])).num.is_zero() or \
+                expand_roots((Z - P(V["vz"])) * P(V["dy"]) - (Y - P(V["vy"])) * P(V["dz"])).num.is_zero()
+            if arm_name != "general":
+                lin_xy = X.equals(P(V["vx"]))          # dx == 0: the point keeps the vertex's x
+            ctx.check(lin_xy and lin_z, "R13h", c, f"[{arm_name}] wall point {k} lies on the particle's line of flight", f"xy: {lin_xy}, z: {lin_z}",
+                      key_detail=f"{arm_name} point {k} on line")
+    # cap correction: pt = vertex + (z - vz) * direction / direction[2]
+    caps = [s_ for s_ in ast.walk(fn) if isinstance(s_, ast.Assign) and u(s_.targets[0]) in ("pt[0]", "pt[1]")]
+    ok = len(caps) == 2
+    for s_, i in zip(sorted(caps, key=lambda x: u(x.targets[0])), (0, 1)):
+        ok = ok and NF().nf(s_.value).equals(P(f"particle.vertex[{i}] + (z - particle.vertex[2]) * particle.direction[{i}] / particle.direction[2]"))
+    ctx.check(ok, "R13h", c, "a point beyond a cap is moved along the line of flight onto the cap plane: vertex + (z_cap - vz) * d / dz", "", key_detail="cap points on line")
+    # box
+    bx = repo.member(BOX, "get_exit_points")
+    e = {}
+    for st in ast.walk(bx):
+        if isinstance(st, ast.Assign) and isinstance(st.targets[0], ast.Name):
+            e.setdefault(st.targets[0].id, st.value)
+    ok = "scale" in e and "intersection" in e and NF().nf(e["scale"]).equals(P("(sides[coord][min_max] - particle.vertex[coord]) / particle.direction[coord]")) \
+        and NF().nf(e["intersection"]).equals(P("particle.vertex + particle.direction * scale"))
+    ctx.check(ok, "R13h", f"{BOX}.get_exit_points", "face candidate = vertex + direction * (face - vertex[c]) / direction[c]: on the line, with coordinate c exactly on the face",
+              u(e.get("scale")) if "scale" in e else "", key_detail="box face point", loc=ctx.loc("pyrex.generation", bx))
+    val = [n for n in ast.walk(bx) if isinstance(n, ast.If) and "intersection[i]" in u(n.test)]
+    ok = len(val) == 1 and u(val[0].test) == "intersection[i] < pair[0] or intersection[i] > pair[1]" and u(val[0].body[0]) == "valid = False"
+    ctx.check(ok, "R13h", f"{BOX}.get_exit_points", "a candidate is kept only if its other two coordinates are inside the box (closed bounds)", u(val[0].test) if val else "",
+              key_detail="box candidate validity")
+    dec = [n for n in ast.walk(bx) if isinstance(n, ast.If) and "sign * particle.direction[coord]" in u(n.test)]
+    ok = len(dec) == 1 and u(dec[0].test) == "sign * particle.direction[coord] < 0" and u(dec[0].body[0]) == "enter_point = intersection" and u(dec[0].orelse[0]) == "exit_point = intersection" \
+        and u(e.get("sign")) == "1 if min_max == 1 else -1"
+    ctx.check(ok, "R13h", f"{BOX}.get_exit_points", "a face is the entry face when the direction points into the box there (outward normal . direction < 0), else the exit face", "",
+              key_detail="entry/exit decision")
+    # cylinder: entry/exit by the sign of (pt - vertex)/direction
+    src = u(fn)
+    ok = "direction = (pt[nonzero] - particle.vertex[nonzero]) / particle.direction[nonzero]" in src and "if np.all(direction < 0):\n" in src and "enter_point = pt" in src \
+        and "elif np.all(direction > 0):" in src and "exit_point = pt" in src
+    ctx.check(ok, "R13h", c, "a wall/cap point is the entry point when it lies behind the vertex along the direction (t < 0) and the exit point when ahead (t > 0)", "", key_detail="cylinder entry/exit")
+
+
 def run(ctx):
+    ctx.guard(r13h)
     ctx.guard(r13a)
     ctx.guard(r13b)
     ctx.guard(r13c)
@@ -275,6 +353,13 @@ def run(ctx):
 
 SELFTEST = {
     "faults": [
+        {"name": "sign slip in the second wall point", "file": "pyrex/generation.py", "old": "            x1 = (-slope*b + np.sqrt(-b**2 + a*self.dr**2)) / a", "new": "            x1 = (slope*b + np.sqrt(-b**2 + a*self.dr**2)) / a",
+         "rule": "R13h"},
+        {"name": "cap point uses the wrong direction component", "file": "pyrex/generation.py",
+         "old": "                pt[1] = (particle.vertex[1] + (z-particle.vertex[2])\n                         * particle.direction[1]/particle.direction[2])",
+         "new": "                pt[1] = (particle.vertex[1] + (z-particle.vertex[2])\n                         * particle.direction[0]/particle.direction[2])", "rule": "R13h"},
+        {"name": "box face scale from the wrong coordinate", "file": "pyrex/generation.py", "old": "            scale = ((sides[coord][min_max] - particle.vertex[coord])", "new": "            scale = ((sides[coord][min_max] - particle.vertex[0])",
+         "rule": "R13h"},
         {"name": "count only on acceptance", "file": "pyrex/generation.py", "old": "        self.count += 1\n        vtx = self.get_vertex()", "new": "        vtx = self.get_vertex()", "rule": "R13a"},
         {"name": "+direction into slant_depth", "file": "pyrex/generation.py", "old": "-particle.direction)", "new": "particle.direction)", "rule": "R13b"},
         {"name": "exp(+x) survival", "file": "pyrex/generation.py", "old": "        survival_weight = np.exp(-x)", "new": "        survival_weight = np.exp(x)", "rule": "R13b"},
